@@ -114,10 +114,11 @@ theorem script_no_comm (exp : α → α) (misfit : Nat → V → α) (kern : Nat
 theorem parallel_eq_sequential (exp : α → α) (misfit : Nat → V → α) (kern : Nat → Nat → V × α → V × α) (udraw : Nat → Nat → α)
     (n P : Nat) (sched : Nat → List Nat) (st : Nat → ChainSt V α)
     (osSchedule : List Nat) (u : Sys (ChainSt V α) (TMsg V α))
-    (hu : runSched (initSys (script exp misfit kern udraw n P 0 sched) st) osSchedule = some u)
-    (hmax : ∀ i, stepP u i = none) :
+    (cap : Option Nat)
+    (hu : runSched cap (initSys (script exp misfit kern udraw n P 0 sched) st) osSchedule = some u)
+    (hmax : ∀ i, stepP cap u i = none) :
     ∀ i, i < n → u.store i = soloRun (kern i) P (st i) := by
-  have h := (choreography_all_interleavings _ (script_no_comm exp misfit kern udraw n P sched) st osSchedule u hu).2.2 hmax
+  have h := (choreography_all_interleavings cap _ (script_no_comm exp misfit kern udraw n P sched) st osSchedule u hu).2.2 hmax
   intro i hi
   rw [h]
   exact no_exchange_is_solo exp misfit kern udraw n P sched st i hi
